@@ -15,6 +15,10 @@ def extra(report, fam, tier, seed):
     from contracts import llvm_memory
 
     report.guarded("LLVM allocator contracts", llvm_memory.run, report)
+    from contracts import llvm_emitters
+
+    # the growth arithmetic the IR-level proofs reason about (Max, *, +, comparisons) must mean the same in the LLVM kernels
+    report.guarded("LLVM emitter contracts (arithmetic of the growth code)", llvm_emitters.run, report)
     import whole_kernel_part as WP
     from standins import sweep as SW
 
@@ -41,7 +45,7 @@ def extra(report, fam, tier, seed):
 def check(argv):
     return run(
         "C05", argv, extra=extra,
-        analyses=["frame", "returns_zero", "guarded_reads", "progress"],
+        analyses=["frame", "returns_zero", "guarded_reads", "progress", "shadowing"],
         static_note="static analyses of standins/static_ir.py are sound over-approximations (pointer-origin taint, syntactic loop guards)",
         explanation="Kind B (merge-loop order, per problem): generate_subgraphs lists every subgraph after every subgraph it is a simplification of, the one without sparse operands last. Kind B (bucket): the bucket index stays inside the bucket and the zero-initialisation loop stays inside it and terminates, per number of bucket levels, all dimensions. Kind B (allocators of the LLVM back end): malloc/realloc receive exactly sizeof(element) * n bytes for every count up to 2^31-1 (defect F9 was a 32-bit product). Kind B (output set-up and hand-over): AppendOutput.write_declarations allocates every pos/crd/vals array with its capacity (exact where the levels above are dense), pos[0] = 0 and cursors 0; AppendOutput.write_cleanup hands back pos/crd of exactly the structure's size and vals covering every stored position - per mode vector, all dimensions, counts and capacities. Kind B (fragments): Hoare triples of write_crd_assembly / write_pos_allocation / write_pos_assembly proved for all states and all capacities >= 1 on the fragment the real emitter produces for every mode vector up to order 4 (5 thorough). Kind B (whole kernel, all inputs): symbolic execution of the emitted IR with Houdini-inferred loop invariants proves every load/store in bounds, every allocation size non-negative, every store inside kernel-owned arrays and every loop measure decreasing, for the kernels listed as fully proved. Kind B (static): for every kernel (evaluate/assemble/compute) of the problem family, static proofs on the emitted IR that no store or "
                     "realloc goes through an input tensor, every input crd read is under its cursor's loop guard, every loop advances one of its "
